@@ -24,7 +24,7 @@ func init() {
 	register("C43", PropertyMeta{
 		Technique: "table extraction of the validator's accepted kinds against the lossless set + per-field rejection obligations + the lossless walker over every Spec/State type instantiated in the library",
 		Explanation: "Decides on modeling/validate.go: the kinds validateFieldType accepts outright are a subset of the lossless scalar kinds, containers recurse into their element (and map keys are restricted to strings/integers), pointers/interfaces/channels/functions are rejected; a type with MarshalJSON but no UnmarshalJSON is rejected; " +
-			"per-field obligations: an unexported field of a struct without custom JSON, and a field tagged json:\"-\", must lead to rejection (both are reported today as known findings); every Spec/State type actually instantiated in the library is lossless by the walker of C08.",
+			"(field-descent) the field loop leaves a field unvalidated only on its json:\"-\" tag; per-field obligations: an unexported field of a struct without custom JSON, and a field tagged json:\"-\", must lead to rejection (both are reported today as known findings); every Spec/State type actually instantiated in the library is lossless by the walker of C08.",
 		NotDecided:  "values (NaN, invalid UTF-8); types defined by users outside the repository.",
 		Assumptions: []string{"reflect.Kind constants as named in the source"},
 	}, runC43)
@@ -515,6 +515,57 @@ func runC43(c *Ctx) {
 			}
 			return true
 		})
+		// field-descent: the only fields whose type is not validated are those tagged
+		// json:"-"; a skip keyed on anything else (exportedness, embedding, kind)
+		// leaves a part of the state unvalidated although encoding/json may still
+		// serialise it (the exported fields of an embedded lowercase-named struct
+		// are promoted and written)
+		info := p.PkgOfDecl(fd).TypesInfo
+		nSkips, skipWhy := 0, ""
+		ast.Inspect(fd.Body, func(n ast.Node) bool {
+			ifs, ok := n.(*ast.IfStmt)
+			if !ok {
+				return true
+			}
+			continues := false
+			for _, st := range ifs.Body.List {
+				if bs, isB := st.(*ast.BranchStmt); isB && bs.Tok == token.CONTINUE {
+					continues = true
+				}
+			}
+			if !continues {
+				return true
+			}
+			nSkips++
+			// the variable holding the tag: defined in the if's init from Tag.Get(...)
+			tagVars := map[types.Object]bool{}
+			if as, isAs := ifs.Init.(*ast.AssignStmt); isAs && len(as.Lhs) == 1 && len(as.Rhs) == 1 {
+				if strings.Contains(types.ExprString(as.Rhs[0]), ".Tag.Get(\"json\")") {
+					if id, isID := as.Lhs[0].(*ast.Ident); isID {
+						tagVars[info.ObjectOf(id)] = true
+					}
+				}
+			}
+			ast.Inspect(ifs.Cond, func(m ast.Node) bool {
+				switch e := m.(type) {
+				case *ast.Ident:
+					if obj := info.ObjectOf(e); obj != nil {
+						if _, isVar := obj.(*types.Var); isVar && !tagVars[obj] {
+							skipWhy = "the field loop skips a field on a condition that reads " + e.Name + " (" + types.ExprString(ifs.Cond) + ")"
+						}
+					}
+				case *ast.CallExpr:
+					if strings.HasSuffix(types.ExprString(e.Fun), ".Tag.Get") {
+						return false // the json tag itself
+					}
+					skipWhy = "the field loop skips a field on a condition that calls " + types.ExprString(e.Fun) + " (" + types.ExprString(ifs.Cond) + ")"
+				}
+				return true
+			})
+			return true
+		})
+		c.Check(nSkips >= 1 && skipWhy == "", "field-descent", "modeling.validateStructType#skips", fd.Pos(), "fields are left unvalidated only on their json tag",
+			skipWhy+": only a json:\"-\" tag may exempt a field from validation; a skip keyed on exportedness or embedding also exempts embedded structs whose exported fields encoding/json promotes and serialises, so types the checkpoint alters or drops are accepted")
 		c.Check(rejectsUnexported, "field-rejection", "modeling.validateStructType#unexported-field", fd.Pos(), "an unexported field of a struct without custom JSON is rejected",
 			"a struct that mixes exported fields with unexported ones (and has no custom JSON) is accepted, although encoding/json silently drops the unexported fields; only the all-unexported case (serialises as {}) is rejected")
 		c.Check(rejectsDash, "field-rejection", "modeling.validateStructType#json-dash-field", fd.Pos(), "a field tagged json:\"-\" is rejected",
